@@ -798,6 +798,77 @@ def babel_family(ck: Check) -> None:
                          {"type": "babel-history", "sequence": seq, "after_history": got[-1], "fresh": alone[-1]})
 
 
+LOADER_SOURCES = {
+    "flag": "{{ g }}|{% if g == true %}yes{% else %}no{% endif %}",
+    "when": "{{ g | date: '%H:%M %z' }}",
+    "inc": "[{% include 'flag' %}]",
+}
+
+
+def _loader_values():
+    import datetime
+    from decimal import Decimal
+
+    from markupsafe import Markup
+
+    utc = datetime.timezone.utc
+    noon = datetime.datetime(2024, 5, 1, 12, 0, tzinfo=utc)
+    return {"int1": 1, "true": True, "float1": 1.0, "dec1": Decimal(1), "str": "<b>", "markup": Markup("<b>"),
+            "noon-utc": noon, "noon+2": noon.astimezone(datetime.timezone(datetime.timedelta(hours=2))), "list": [1], "list-true": [True]}
+
+
+def _loader_request(env, name, vname, use_async):
+    from ..core import classify_exc, run_async
+
+    try:
+        g = {"g": _loader_values()[vname]}
+        t = run_async(env.get_template_async(name, globals=g)) if use_async else env.get_template(name, globals=g)
+        return ["out", run_async(t.render_async()) if use_async else t.render()]
+    except Exception as e:  # noqa: BLE001
+        return ["err", classify_exc(e)]
+
+
+def _loader_env(kind, autoescape):
+    from liquid import CachingDictLoader, CachingChoiceLoader, DictLoader, Environment
+
+    if kind == "caching-dict":
+        loader = CachingDictLoader(dict(LOADER_SOURCES))
+    else:
+        loader = CachingChoiceLoader([DictLoader({}), DictLoader(dict(LOADER_SOURCES))])
+    return Environment(loader=loader, autoescape=autoescape)
+
+
+def loader_family(ck: Check) -> None:
+    """History THROUGH A CACHING LOADER: one long-lived environment answers get_template(name, globals=...) requests whose globals
+    compare equal but are different data (1 / True / 1.0 / Decimal(1); a str and its Markup twin; one instant in two time zones; [1]
+    and [True]); every response must render what a brand-new environment renders for that request alone (oracle only; the Coq model
+    covers the memo caches inside expressions and filters, not the loader caches -- those are C23's model)."""
+    import itertools
+
+    groups = [("flag", ["int1", "true", "float1", "dec1"]), ("inc", ["int1", "true", "float1"]), ("flag", ["str", "markup"]),
+              ("when", ["noon-utc", "noon+2"]), ("flag", ["list", "list-true"])]
+    for kind in ("caching-dict", "caching-choice"):
+        for autoescape in (False, True):
+            for name, vals in groups:
+                for seq in itertools.permutations(vals, 2):
+                    for use_async in (False, True):
+                        env = _loader_env(kind, autoescape)
+                        for i, v in enumerate(seq):
+                            got = _loader_request(env, name, v, use_async)
+                            want = _loader_request(_loader_env(kind, autoescape), name, v, use_async)
+                            ck.count("loader.requests")
+                            if got != want:
+                                ck.violation(
+                                    "impl-violation", f"history:loader-globals:{name}:{seq[i]}",
+                                    f"{kind} loader (autoescape {autoescape}, {'async' if use_async else 'sync'}): get_template({name!r}, "
+                                    f"globals={{'g': {v}}}) after the same request with g = {list(seq[:i])} renders {got}, but {want} in an "
+                                    f"environment that has served nothing ({LOADER_SOURCES[name]!r})",
+                                    {"type": "loader-history", "loader": kind, "autoescape": autoescape, "async": use_async, "name": name,
+                                     "sequence": list(seq[: i + 1]), "after_history": got, "fresh": want})
+                                break
+                        ck.note_case(("loader", kind, autoescape, name, seq, use_async))
+
+
 def run(ck: Check) -> None:
     ck.rule = (
         "history: targeted sequences (every ordered pair of equal-but-distinct date arguments: int/bool/float/Decimal, str/Markup, "
@@ -828,6 +899,7 @@ def run(ck: Check) -> None:
     pool = Pool(4)  # the helpers import the engine while the proof step runs
     ck.proof()
     babel_family(ck)
+    loader_family(ck)
     ck.extra["t_proof"] = round(_t.time() - t0, 1)
     try:
         _history(ck, pool)
@@ -1139,6 +1211,16 @@ def _effects(ck: Check) -> None:
 
 
 def replay(data) -> int:
+    if data["case"].get("type") == "loader-history":
+        c = data["case"]
+        env = _loader_env(c["loader"], c["autoescape"])
+        for v in c["sequence"]:
+            got = _loader_request(env, c["name"], v, c["async"])
+        want = _loader_request(_loader_env(c["loader"], c["autoescape"]), c["name"], c["sequence"][-1], c["async"])
+        print("source:", LOADER_SOURCES[c["name"]], "requests with g =", c["sequence"])
+        print("after history:", got, "fresh:", want)
+        print(("VIOLATION reproduced" if got != want else "not reproduced") + f" property={data['property']}")
+        return 1 if got != want else 0
     if data["case"].get("type") == "babel-history":
         class _Ck:
             def __init__(self):
